@@ -77,7 +77,9 @@ def build_shot(p: Dict[str, Any]):
     def until(i, ft):
         if p.get("wind_units", True) and (i % 4 == 3 or (ft == 0.0 and i % 2 == 0)):
             # a BARE number: that many of the preferred distance unit in force now (a segment ending at 0 is given as plain 0)
-            return U.Foot(ft) >> m.PreferredUnits.distance
+            bare = U.Foot(ft) >> m.PreferredUnits.distance
+            # (a whole number is handed over as a Python int: a number means the same whatever numeric type carries it)
+            return int(bare) if float(bare).is_integer() and abs(bare) < 1e15 else bare
         un = [U.Foot, U.Yard, U.Meter, U.Inch][i % 4] if p.get("wind_units", True) else U.Foot
         return un(U.Foot(ft) >> un)
     winds = []
